@@ -14,7 +14,9 @@
 From Coq Require Import ZArith List Bool Lia.
 Require Import Prim.Exn Prim.PyBytes Prim.PyList Prim.Splitlines Model.Sentence Model.Nmea Model.Tbq Model.Assemble
                Model.Reader Model.Socket Spec.SocketSpec.
-Require Import Proofs.ExnLemmas Proofs.NmeaProofs Proofs.AssembleProofs Proofs.ReaderProofs Proofs.SocketProofs.
+Require Import Spec.AssembleSpec.
+Require Import Proofs.ExnLemmas Proofs.NmeaProofs Proofs.AssembleProofs Proofs.ReaderProofs Proofs.ReaderIsolation
+               Proofs.SocketProofs.
 Import ListNotations.
 Open Scope Z_scope.
 
@@ -155,5 +157,89 @@ Section Readers.
   Proof.
     intros l x r s Hu Hs Hx Hp. rewrite (produce_raw l s Hp), (sentence_text_unterminated l _ Hu).
     exact (sentence_text_plain x r Hs Hx).
+  Qed.
+
+  (* ================================================================ the two loops, at reader level *)
+
+  (* neither produce nor the tag block queue can raise IndexError (Proofs/NmeaProofs.v, Proofs/TbqProofs.v), the only
+     exception on which the two loops differ; so NMEAQueue.put_line and the generator of AssembleMessages deliver the same
+     for EVERY line sequence, from every state, with and without a tag block queue *)
+  Theorem rd_loops_equal : forall use_tbq lines st,
+    rd_run uni queue_step use_tbq st lines = rd_run uni stream_step use_tbq st lines.
+  Proof.
+    intros use_tbq lines. induction lines as [|l rest IH]; intros [ast tq]; [reflexivity|].
+    cbn [rd_run]. unfold rd_step. destruct (rd_feed uni use_tbq tq l) as [[[p t] tq'] touts] eqn:Ef.
+    destruct (rd_feed_ok uni _ _ _ _ _ _ _ Ef) as [_ [Hp Ht]].
+    assert (Hno : try_index_error p t = false).
+    { unfold try_index_error. destruct p as [sn|e].
+      - destruct t as [e|]; [|reflexivity]. cbn in Ht. destruct Ht as [->|[->| ->]]; reflexivity.
+      - cbn in Hp. destruct Hp as [->|[->| ->]]; reflexivity. }
+    rewrite queue_step_eq, Hno. destruct (stream_step ast p t) as [[ast' outs]|e]; [|reflexivity]. now rewrite IH.
+  Qed.
+
+  (* ================================================================ the six front-ends *)
+
+  (* what each front-end delivers (AIS sentences and tag block groups per consumed line, final state) for the lines ls /
+     the byte stream concat ls / the receive chunks cs *)
+  Definition fe_iter (use_tbq : bool) (ls : list bytes) := rd_run uni stream_step use_tbq rd_init (iter_source ls).
+  Definition fe_bytestream (use_tbq : bool) (ls : list bytes) := rd_run uni stream_step use_tbq rd_init (bytestream_source ls).
+  Definition fe_binaryio (use_tbq : bool) (content : bytes) := rd_run uni stream_step use_tbq rd_init (binaryio_source content).
+  Definition fe_file := fe_binaryio.                       (* FileReaderStream is BinaryIOStream over open(filename, 'rb') *)
+  Definition fe_socket (use_tbq : bool) (cs : list bytes) := rd_run uni stream_step use_tbq rd_init (sock_iter_messages cs).
+  Definition fe_queue (use_tbq : bool) (ls : list bytes) := rd_run uni queue_step use_tbq rd_init ls.   (* put_line per line *)
+
+  (* lines as the property builds them (longer than 10 bytes, first byte ! $ or backslash), each terminated by LF or
+     CR LF; any segmentation of the byte stream for the socket: all six deliver the same sequence of sentences -- the
+     same records, hence the same raw text, payload, bits, validity flag, wrapper and tag block -- at the same lines *)
+  Theorem six_frontends_agree : forall use_tbq ls cs, lines_ok ls -> Forall passes_filter ls -> chunking cs (concat ls) ->
+    fe_bytestream use_tbq ls = fe_iter use_tbq ls /\
+    fe_binaryio use_tbq (concat ls) = fe_iter use_tbq ls /\
+    fe_file use_tbq (concat ls) = fe_iter use_tbq ls /\
+    fe_socket use_tbq cs = fe_iter use_tbq ls /\
+    fe_queue use_tbq ls = fe_iter use_tbq ls.
+  Proof.
+    intros use_tbq ls cs Hl Hf Hc. unfold fe_file, fe_bytestream, fe_binaryio, fe_socket, fe_queue, fe_iter, iter_source.
+    destruct (socket_frontend ls cs Hl Hc) as [-> [-> ->]]. rewrite (stream_source_id ls Hf).
+    repeat split. apply rd_loops_equal.
+  Qed.
+
+  (* and the same again when the in-memory iterator / the queue are given the bare lines (no terminator) *)
+  Theorem six_frontends_agree_bare : forall use_tbq ls ls0 cs,
+    lines_ok ls -> Forall passes_filter ls -> chunking cs (concat ls) -> Forall2 unterminated ls ls0 ->
+    fe_iter use_tbq ls0 = fe_iter use_tbq ls /\ fe_queue use_tbq ls0 = fe_iter use_tbq ls /\
+    fe_socket use_tbq cs = fe_iter use_tbq ls0.
+  Proof.
+    intros use_tbq ls ls0 cs Hl Hf Hc Hu. destruct (six_frontends_agree use_tbq ls cs Hl Hf Hc) as [_ [_ [_ [Hs Hq]]]].
+    assert (E : fe_iter use_tbq ls0 = fe_iter use_tbq ls).
+    { unfold fe_iter, iter_source. symmetry. apply terminators_irrelevant. exact Hu. }
+    split; [exact E|]. split; [|now rewrite Hs, E].
+    unfold fe_queue. rewrite rd_loops_equal. exact E.
+  Qed.
+
+  (* ================================================================ the wrapper each delivery carries (C18, at reader level) *)
+
+  Lemma rd_inputs_fresh : forall use_tbq lines tq, Forall fresh_line (rd_inputs uni use_tbq tq lines).
+  Proof.
+    intros use_tbq lines. induction lines as [|l rest IH]; intro tq; [constructor|].
+    cbn [rd_inputs]. destruct (rd_feed uni use_tbq tq l) as [[[p t] tq'] touts] eqn:Ef.
+    destruct (rd_feed_ok uni _ _ _ _ _ _ _ Ef) as [Hp _]. constructor; [|apply IH].
+    unfold fresh_line. destruct p as [[a|g]|e]; try exact I. symmetry in Hp.
+    apply produce_ok in Hp as [rs [s0 [Hs0 Hs]]].
+    apply produce_inner_ok in Hs0 as [[a0 [-> Ha0]] | [g [-> _]]].
+    - apply ais_init_ok in Ha0 as [_ [_ [_ [_ [_ [_ [_ R]]]]]]].
+      destruct Hs as [Hs | [tb Hs]]; inversion Hs; subst; exact R.
+    - destruct Hs as [Hs | [tb Hs]]; inversion Hs.
+  Qed.
+
+  (* for every line sequence, either loop: the wrappers carried by the delivered sentences are those the C18
+     specification prescribes for the wrapper lines read and the positions of the deliveries *)
+  Theorem rd_wrappers_correct : forall use_tbq lines,
+    let ins := rd_inputs uni use_tbq [] lines in
+    let outs := map fst (fst (rd_run uni stream_step use_tbq rd_init lines)) in
+    map (map a_wrapper) outs = spec_wrapper (asm_events ins (map has_delivery outs)) /\
+    map fst (fst (rd_run uni queue_step use_tbq rd_init lines)) = outs.
+  Proof.
+    intros use_tbq lines ins outs. split; [|unfold outs; now rewrite rd_loops_equal].
+    unfold outs, rd_init. rewrite rd_run_asm_run. fold ins. apply stream_wrappers_correct. apply rd_inputs_fresh.
   Qed.
 End Readers.
